@@ -1,9 +1,17 @@
 """C02 - config-class round trip."""
 from vf.props import rt_props
 
-KEYS = ["doctrans.ast_utils:set_value", "doctrans.defaults_utils:needs_quoting", "doctrans.defaults_utils:set_default_doc",
+KEYS = ["doctrans.ast_utils:param2ast", "doctrans.ast_utils:set_value", "doctrans.defaults_utils:needs_quoting", "doctrans.defaults_utils:set_default_doc",
         "doctrans.pure_utils:quote", "doctrans.pure_utils:unquote"]
 
 
+def nq_scalars():
+    """needs_quoting on the scalar type names (finite; by evaluation of the real function): a premise of param2ast's contract"""
+    from doctrans.defaults_utils import needs_quoting
+
+    return [("NQ-scalar[%s]" % t, needs_quoting(t) is False, "needs_quoting(%r) is False" % t, needs_quoting(t)) for t in ("int", "float", "bool", "complex")]
+
+
 def check(run, record_expected=False):
-    return rt_props.check_rt(run, "C02", ["class"], KEYS, "C02 config-class round trip", record_expected=record_expected)
+    return rt_props.check_rt(run, "C02", ["class"], KEYS, "C02 config-class round trip", record_expected=record_expected,
+                             evaluated=[("doctrans.defaults_utils:needs_quoting", nq_scalars())])
